@@ -471,7 +471,8 @@ func replay(run *ev.Run, d *ev.ReplayDoc, col *collector) {
 	case "uncle-version":
 		num := func(k string) int { f, _ := d.Detail[k].(float64); return int(f) }
 		cl, _ := d.Detail["class"].(string)
-		c := uncleCase{num("fork"), num("dist"), uint64(num("nonce")), cl}
+		known, _ := d.Detail["known"].(bool)
+		c := uncleCase{num("fork"), num("dist"), uint64(num("nonce")), cl, known}
 		col.check(d.Scenario, d.Oracle, d.CaseID, d.Detail, func() string {
 			return probeUncle(params.Testnet2ChainConfig, refhdr.ByName("testnet2"), c)
 		})
